@@ -854,6 +854,21 @@ func TestVerif_C18_ContinualRestart(t *testing.T) {
 				st.Fail(rt, "C18/continual/new-address-not-gathered", "an address that appeared while the cycle was live got no host candidate within 20 s: events %v (%s)", snapshot(), desc)
 			}
 		}
+		// an address of the first cycle may go away before the Restart and come back during the second cycle
+		// (Wi-Fi drops, ICE restart, Wi-Fi is back): knowledge of the old cycle must not keep it from being gathered
+		flapIface, flapAddr := "", ""
+		if secondCycle && nInitial >= 2 && rapid.Bool().Draw(rt, "addressLeavesBeforeRestartAndReturnsInSecondCycle") {
+			flapIface, flapAddr = fmt.Sprintf("eth%d", nInitial-1), fmt.Sprintf("10.0.%d.1", nInitial-1)
+			fn.removeIface(flapIface)
+			var kept []string
+			for _, ad := range addrs {
+				if ad != flapAddr {
+					kept = append(kept, ad)
+				}
+			}
+			addrs = kept
+			time.Sleep(4 * time.Millisecond) // ≥ 10 monitor intervals of the first cycle
+		}
 		if err := a.Restart("", ""); err != nil {
 			rt.Fatalf("harness: restart: %v", err)
 		}
@@ -893,6 +908,13 @@ func TestVerif_C18_ContinualRestart(t *testing.T) {
 			if !waitFor(u2, addrs) {
 				st.Fail(rt, "C18/continual/host-candidate-missing", "second cycle: not every current address got a host candidate: events %v (%s)", snapshot()[atRestart:], desc)
 			}
+			if flapIface != "" {
+				time.Sleep(8 * time.Millisecond) // ≥ 20 monitor intervals of the second cycle without the address
+				fn.addIface(fnIface{Name: flapIface, Up: true, Addrs: []string{flapAddr}})
+				if !waitFor(u2, []string{flapAddr}) {
+					st.Fail(rt, "C18/continual/returning-address-not-gathered", "an address of the first cycle that went away before the Restart and came back during the second cycle got no host candidate within 20 s: events %v (%s)", snapshot()[atRestart:], desc)
+				}
+			}
 			for _, e := range snapshot()[atRestart:] {
 				if !strings.HasPrefix(e, u2+" ") {
 					st.Fail(rt, "C18/cycle/results-mixed", "event %q after the second GatherCandidates does not carry the new ufrag %s (%s)", e, u2, desc)
@@ -904,7 +926,7 @@ func TestVerif_C18_ContinualRestart(t *testing.T) {
 				st.Fail(rt, "C18/continual/nil-candidate", "a nil candidate was published under the continual policy: %v (%s)", snapshot(), desc)
 			}
 		}
-		st.Record(vfHashStr(desc), addAfterRestart > 0 || addDuring, fmt.Sprintf("address-after-restart:%v", addAfterRestart > 0), fmt.Sprintf("address-during-cycle:%v", addDuring))
+		st.Record(vfHashStr(desc+flapIface), addAfterRestart > 0 || addDuring || flapIface != "", fmt.Sprintf("address-after-restart:%v", addAfterRestart > 0), fmt.Sprintf("address-during-cycle:%v", addDuring), fmt.Sprintf("address-leaves-and-returns:%v", flapIface != ""))
 		if (addAfterRestart > 0 || addDuring) && st.WantSample() {
 			st.Sample(func() string { return desc + fmt.Sprintf(" events=%d", len(snapshot())) })
 		}
